@@ -267,6 +267,67 @@ pub fn oracle(args: &Args) {
                 println!("text\t{}", t);
             }
         }
+        // checklines --file F: judge recorded `info` lines of real-binary searches with C08's oracle.
+        // File: `search\t<root fen>\t<moves>\t<depth limit or ->` then `info\t<depth>\t<cp|mate>\t<value>\t<pv>` lines.
+        "checklines" => {
+            use crate::mon_search::{judge_infos, InfoRec};
+            let text = std::fs::read_to_string(args.get("--file").expect("--file")).expect("read file");
+            let mut cur: Option<(usize, Pos, Option<u8>, Vec<InfoRec>)> = None;
+            let mut idx = 0usize;
+            let mut lines_checked = 0u64;
+            let mut mates = 0u64;
+            let mut l = Local::default();
+            let mut flush = |cur: &mut Option<(usize, Pos, Option<u8>, Vec<InfoRec>)>, l: &mut Local| {
+                if let Some((i, p, lim, infos)) = cur.take() {
+                    if let Some((sig, what)) = judge_infos(&p, &infos, lim, l) {
+                        println!("bad\t{}\t{}\t{}", i, sig, what.replace('\n', " "));
+                    }
+                }
+            };
+            for line in text.lines() {
+                let f: Vec<&str> = line.split('\t').collect();
+                match f[0] {
+                    "search" => {
+                        flush(&mut cur, &mut l);
+                        let mut p = if f[1] == "startpos" { Pos::start() } else { Pos::from_fen(f[1]).expect("fen") };
+                        for t in f[2].split_whitespace() {
+                            let m = p.find_uci(t).expect("legal move in search header");
+                            p = p.make(m);
+                        }
+                        cur = Some((idx, p, f[3].parse().ok(), vec![]));
+                        idx += 1;
+                    }
+                    "info" => {
+                        if let Some((_, _, _, infos)) = cur.as_mut() {
+                            let val: i16 = f[3].parse().unwrap_or(0);
+                            let pv: Vec<Mv> = f[4]
+                                .split_whitespace()
+                                .filter_map(|t| {
+                                    let from = parse_sq(t.get(0..2)?)?;
+                                    let to = parse_sq(t.get(2..4)?)?;
+                                    let promo = match t.get(4..5) {
+                                        Some("q") => Some(Kind::Q),
+                                        Some("r") => Some(Kind::R),
+                                        Some("b") => Some(Kind::B),
+                                        Some("n") => Some(Kind::N),
+                                        _ => None,
+                                    };
+                                    Some(Mv { from, to, promo, capture: false, ep: false, castle: false })
+                                })
+                                .collect();
+                            lines_checked += 1;
+                            if f[2] == "mate" {
+                                mates += 1;
+                            }
+                            infos.push(InfoRec { depth: f[1].parse().unwrap_or(0), seldepth: 0, cp: if f[2] == "cp" { Some(val) } else { None }, mate: if f[2] == "mate" { Some(val) } else { None }, pv, nodes: 0, hashfull: 0, tbhits: 0 });
+                        }
+                    }
+                    _ => {}
+                }
+            }
+            flush(&mut cur, &mut l);
+            println!("checked\t{}\t{}\t{}", idx, lines_checked, mates);
+        }
         _ => {
             eprintln!("unknown oracle command {what}");
             std::process::exit(2);
